@@ -256,6 +256,20 @@ func genOutbox(r *Rng, prop string, k int, tier string) *RunSpec {
 	}
 	o.QueryActor = prop == "C05" && r.Intn(3) == 0
 	st := newStd(o)
+	if prop == "C05" && r.Intn(3) == 0 {
+		// the application handles some client activity types itself ('other') or adds to the default ('wrapped'); never Create,
+		// whose default behaviour is what this property describes
+		cbs := map[string]string{}
+		for _, t := range []string{"Update", "Delete", "Follow", "Like", "Add", "Remove", "Undo", "Block", "Listen"} {
+			switch r.Intn(4) {
+			case 0:
+				cbs[t] = "other"
+			case 1:
+				cbs[t] = "wrapped"
+			}
+		}
+		st.W.Servers[0].SocCb = cbs
+	}
 	g := &obGen{r: r, st: st, anon: prop == "C03"}
 	g.build(prop)
 	// remote documents and fates
